@@ -377,6 +377,9 @@ pub fn run(ctx: &Ctx) -> CheckResult {
                 out.stats.transitions += 2 * d as u64;
                 for (i, x) in xs.iter().enumerate() {
                     if x.is_nan() {
+                        // Maximum passes through an identity transformation (serde round trip, clone,
+                        // clone_from, ...) right before the reset; Minimum is reset as it is
+                        a = apply_via(&cmax, a, VIAS[i % VIAS.len()]);
                         a.reset();
                         b.reset();
                         continue;
